@@ -15,6 +15,7 @@ import Driver.Builtins
 import Driver.Enc
 import Driver.EvalDrv
 import Driver.VMHist
+import Driver.OptDrv
 open Driver
 
 /-- a trailing field starting with '#' carries human-readable context and is ignored -/
@@ -36,6 +37,7 @@ def dispatch (line : String) : String :=
   | "compile" :: args => handleCompile args
   | "compiled" :: args => handleCompileDis args
   | "sem" :: args => handleSem args
+  | "optast" :: args => handleOptAst args
   | "pos" :: args => handlePos args
   | "v1" :: args => handleV1 args
   | "sched" :: args => handleSched args
